@@ -112,15 +112,23 @@ ScopedInst(k, sh, nest, pl, used, sp, spath) ==
       need == UNION {{<<ModH(d.home), r.m>> : r \in {x \in d.refs : x.m # ModH(d.home)}} : d \in defs}
   IN [Base EXCEPT !.fam = k, !.shape = "scoped-" \o sh \o "-" \o pl, !.defs = defs, !.imp = need, !.spell = sp, !.rpos = nest[2], !.spath = spath,
                   !.roots = IF used THEN {[home |-> "m1.x1", k |-> k, m |-> "m1", n |-> "a"]} ELSE {}]
+\* (exhaustive part: unprefixed spelling - the sampled part draws all three; an acyclic graph is always used)
 ScopedFamily(k, SP) ==
-  {ScopedInst(k, sh, nest, pl, used, sp, spath)
-   : sh \in ShapesOf(k), nest \in PosPairs(k), pl \in ScopedPlaces, used \in BOOLEAN, sp \in Spellings, spath \in SP}
+  {ScopedInst(k, sh, nest, pl, TRUE, "u", spath) : sh \in ShapesOf(k), nest \in PosPairs(k), pl \in ScopedPlaces, spath \in SP}
+  \cup {ScopedInst(k, sh, nest, pl, FALSE, "u", spath) : sh \in {x \in ShapesOf(k) : Cyclic(x)}, nest \in PosPairs(k), pl \in ScopedPlaces, spath \in SP}
 SampleScoped(k) ==
   {ScopedInst(k, sh, nest, pl, used, sp, spath)
-   : sh \in {RandomElement(ShapesOf(k))}, nest \in {RandomElement(PosPairs(k))}, pl \in {RandomElement(ScopedPlaces)},
+   \* (the single-statement paths are all in the exhaustive part: deeper ones and the all-in-the-scope placement drawn more often)
+   : sh \in {RandomElement(ShapesOf(k))}, nest \in {RandomElement(PosPairs(k))}, pl \in {<<"in", "in", "top", "out">>[RandomElement(1..4)]},
      used \in {RandomElement(1..4) > 1}, sp \in {RandomElement(Spellings)},
-     spath \in {LET n == RandomElement(1..3) IN RandomElement(SPathsN(n))}}
-SampleScopeds(k, n) == UNION {SampleScoped(k) : i \in 1..n}
+     spath \in {LET n == <<1, 2, 2, 3, 3>>[RandomElement(1..5)] IN RandomElement(SPathsN(n))}}
+\* a sweep: every scope path of one or two statements once with a reference cycle inside the scope (random cycle shape,
+\* position, spelling), so that no kind of enclosing statement depends on the luck of the draw
+SweepScoped(k) ==
+  UNION {{ScopedInst(k, sh, nest, "in", TRUE, sp, spath)
+          : sh \in {RandomElement({x \in ShapesOf(k) : Cyclic(x)})}, nest \in {RandomElement(PosPairs(k))}, sp \in {RandomElement(Spellings)}}
+         : spath \in SPathsN(1) \cup SPathsN(2)}
+SampleScopeds(k, n) == SweepScoped(k) \cup UNION {SampleScoped(k) : i \in 1..n}
 
 \* ---- kindmix: a name that IS defined - as a definition of another kind (typedef a; uses a).  Typedefs, groupings,
 \* identities and features have separate name spaces (RFC 6020 6.2.1): the reference is dangling unless a definition
@@ -132,8 +140,30 @@ KindMixInst(k1, k2, h1, via, both, nest, sp) ==
   IN [Base EXCEPT !.fam = "kindmix", !.shape = k1 \o "-as-" \o k2 \o (IF both THEN "-both" ELSE ""), !.defs = d1 \cup d2, !.spell = sp, !.rpos = nest[2],
                   !.imp = IF h1 = "m1" THEN {} ELSE {<<"m1", h1>>},
                   !.roots = {[home |-> "m1", k |-> k2, m |-> (IF via THEN "m1" ELSE h1), n |-> (IF via THEN "b" ELSE "a")]}]
-KindMixFamily == UNION {{KindMixInst(k1, k2, h1, via, both, nest, sp) : nest \in PosPairs(k2)}
-                        : k1 \in Kinds, k2 \in Kinds \ {k1}, h1 \in {"m1", "m2"}, via \in BOOLEAN, both \in BOOLEAN, sp \in {"u", "o"}}
+KindMixFamily == UNION {IF k1 = k2 THEN {} ELSE {KindMixInst(k1, k2, h1, via, both, nest, sp) : nest \in PosPairs(k2)}
+                        : k1 \in Kinds, k2 \in Kinds, h1 \in {"m1", "m2"}, via \in BOOLEAN, both \in BOOLEAN, sp \in {"u", "o"}}
+
+\* ---- homonym: the same WRITTEN reference "q:a" in two modules that bind the prefix string q differently (RFC 6020 7.1.5:
+\* a prefix is local to the module that declares it).  m1 imports m3 as q; m2 imports m1 as q ("both": a is defined in
+\* m3 and in m1, one copy plain, the other with a second definition that changes what a compiled node shows: a derived
+\* identity, a feature dependency switched off, a further grouping), or m1 does not define a ("dangling"), or m2 imports
+\* m3 as q as well ("same"), or m2 declares no prefix q at all ("unknown").  Both modules use the reference from a data
+\* node, directly or through a local definition c.
+HomonymDefs(k, h, rich) ==
+  LET d(n, refs) == [k |-> k, n |-> n, home |-> h, refs |-> {Ref(h, y) : y \in refs}, pos |-> "direct"] IN
+  IF ~rich THEN {d("a", {})} ELSE IF k = "identity" THEN {d("a", {}), d("b", {"a"})} ELSE {d("a", {"b"}), d("b", {})}
+HomonymInst(k, mode, rich3, via) ==
+  LET t2 == IF mode = "same" THEN "m3" ELSE "m1"         \* what q means in m2 (mode "unknown": m2 has no such import)
+      user(u, t) == IF via THEN {[k |-> k, n |-> "c", home |-> u, refs |-> {Ref(t, "a")}, pos |-> "direct"]} ELSE {}
+      root(u, t) == [home |-> u, k |-> k, m |-> (IF via THEN u ELSE t), n |-> (IF via THEN "c" ELSE "a")]
+  IN [Base EXCEPT !.fam = "homonym", !.shape = k \o "-" \o mode \o (IF rich3 THEN "-r3" ELSE "-r1") \o (IF via THEN "-via" ELSE ""),
+                  !.rpos = (IF k = "grouping" THEN "container" ELSE "leaf"), !.off = IF k = "feature" THEN {"b"} ELSE {},
+                  !.imp = {<<"m1", "m3">>} \cup (IF mode = "unknown" THEN {} ELSE {<<"m2", t2>>}),
+                  !.alias = {<<"m1", "m3", "q">>, <<"m2", t2, "q">>},
+                  !.defs = HomonymDefs(k, "m3", rich3) \cup (IF mode = "dangling" THEN {} ELSE HomonymDefs(k, "m1", ~rich3))
+                           \cup user("m1", "m3") \cup user("m2", t2),
+                  !.roots = {root("m1", "m3"), root("m2", t2)}]
+HomonymFamily == {HomonymInst(k, mode, rich3, via) : k \in Kinds, mode \in {"both", "dangling", "same", "unknown"}, rich3 \in BOOLEAN, via \in BOOLEAN}
 
 \* ---- illformed: ONE statement (uses-augment, refine, unique, top-level augment, deviation) with either kind of schema
 \* node id, naming every kind of node of the host (or none), with every property; see CompilePipeline "ill-formed
@@ -150,7 +180,8 @@ IllStatements(u_) ==
                                                             prop \in {"not-supported", "replace", "add", "delete"}}
 IllInst(x, sp) == [Base EXCEPT !.fam = "illformed", !.shape = x.site \o "-" \o x.arg \o "-" \o x.tgt, !.mods = {"m1", "m2"}, !.imp = {<<"m2", "m1">>},
                                !.spell = sp, !.ill = {x}]
-IllFamily == {IllInst(x, sp) : x \in IllStatements(0), sp \in {"u", "o"}}
+IllSites == {"uses-augment", "refine", "unique", "augment", "deviation"}
+IllFamily(site) == {IllInst(x, sp) : x \in {y \in IllStatements(0) : y.site = site}, sp \in {"u", "o"}}
 
 \* ---- import graphs: every set of import statements between the supplied modules
 ImportFamily(present) ==
@@ -252,15 +283,17 @@ Combos(n, Places) ==
 AllPlaces(sz) == IF sz = "s" THEN {"m1", "m2"} ELSE Mods
 Chunk(c) ==
   CASE c[1] \in Kinds /\ c[2] = "twin" -> TwinFamily(c[1])
-    [] c[1] \in Kinds /\ c[2] = "scoped" -> ScopedFamily(c[1], SPathsSmall)
+    [] c[1] \in Kinds /\ c[2] = "scoped" -> ScopedFamily(c[1], IF c[3] = "s" THEN SPathsN(1) ELSE SPathsSmall)
     [] c[1] \in Kinds -> DefFamily(c[1], c[2], AllPlaces(c[3]))
     [] c[1] = "kindmix" -> KindMixFamily
-    [] c[1] = "illformed" -> IllFamily
+    [] c[1] = "homonym" -> HomonymFamily
+    [] c[1] = "illformed" -> IllFamily(c[2])
     [] c[1] = "subimport" -> SubImportFamily
     [] c[1] = "import" -> ImportFamily(IF c[3] = "s" THEN {"m1", "m2"} ELSE Mods)
     [] c[1] = "include" -> IncludeFamily(IF c[3] = "s" THEN {"m1"} ELSE {"m1", "m2"}, IF c[3] = "s" THEN IncCandSmall ELSE IncCandFull)
     [] c[1] = "augdev" -> AugDevFamily
 Chunks(sz) == {<<k, sh, sz>> : k \in Kinds, sh \in SingleRef} \cup {<<k, "twin", sz>> : k \in Kinds} \cup {<<k, sh, sz>> : k \in {"grouping", "feature"}, sh \in {"fan", "dag"}}
               \cup {<<k, "scoped", sz>> : k \in {"grouping", "typedef"}}
-              \cup {<<"subimport", "-", sz>>, <<"import", "-", sz>>, <<"include", "-", sz>>, <<"augdev", "-", sz>>, <<"kindmix", "-", sz>>, <<"illformed", "-", sz>>}
+              \cup {<<"subimport", "-", sz>>, <<"import", "-", sz>>, <<"include", "-", sz>>, <<"augdev", "-", sz>>, <<"kindmix", "-", sz>>, <<"homonym", "-", sz>>}
+              \cup {<<"illformed", site, sz>> : site \in IllSites}
 =============================================================================
